@@ -48,6 +48,8 @@ def templates(tier):
     add('cond', 'b ? +++ f1 ( ) : g1 ---', {'f1': num, 'g1': num}, 2, {'b': sp(['bool'])})
     add('assign-target-fn', 'g1 = f1 ( ) ; g1', {'f1': num, 'g1': num}, 2)
     add('assign-compound-target-fn', 'g1 += f1 ( ) ; x = gf ( 1 )', {'f1': num, 'g1': num}, 3)
+    # a failing context function that shadows a global of the same name (registered / built-in)
+    add('shadow-global', 'gf ( 1 ) + f1 ( )', {'gf': num, 'f1': num}, 2)
     add('setter-op', 'x becomes f1 ( ) ; y = +++ x', {'f1': num}, 3, {'x': num})
     add('setter-op-target-fn', 'g1 becomes 1 ; g1', {'g1': num}, 2)
     return out
